@@ -25,7 +25,9 @@ META = {
     "note": "Trusted: Lean kernel; hand-written model of state.py (StateAlg/Model.lean) incl. the abstraction of nested index "
     "tuples to flat rows; CPython semantics of zip / itertools.product / dict(zip()); generator reach (trees <= 6 fields, depth <= 4, "
     "lengths 0-3); 'before any job runs' is observed (task job directories, body executions), not proved.",
-    "rule": "case = (splitter tree, list length per field, level state|public); distinct by canonical JSON; non-trivial = >= 2 fields "
+    "rule": "case = (splitter tree, list length per field, level state|public); random trees plus, systematically, every tree over 2-4 "
+    "fields containing an inner product with a valid assignment, every single-field perturbation and every swap of two lengths "
+    "(near misses of the shape test, incl. inner products of compound operands); distinct by canonical JSON; non-trivial = >= 2 fields "
     "and (>= 2 jobs or a rejection)",
     "assumptions": [
         "field values are plain lists split along their outer dimension (container_ndim = 1); nested values are C04's subject",
@@ -222,7 +224,13 @@ def correspondence(ctx):
     items += gen_cases(ctx, ctx.pick(500, 12000), ctx.pick(45, 900))
     if not ctx.quick:
         items += exhaustive_small(ctx)
-    judge_recs(ctx, sa.run_batch(ctx, items))
+    seen, uniq = set(), []
+    for c, lvl in items:  # corpus and systematic cases overlap: run each (case, level) once
+        k = json.dumps([c, lvl], sort_keys=True)
+        if k not in seen:
+            seen.add(k)
+            uniq.append((c, lvl))
+    judge_recs(ctx, sa.run_batch(ctx, uniq))
     # the repaired D33 witness must pass
     r = sa.public_level(D33_REGRESSION, ctx.scratch / "d33")
     if r.get("rejected"):
